@@ -179,9 +179,10 @@ def _find_func(repo, qual):
 def _clauses(ck, repo):
     n = 0
     claimed = set()
+    from ..q import inlined_view as _iv
     for qual, clause, conds, handler, fragment in CLAUSES:
         f = _find_func(repo, qual)
-        fv = FuncView(f)
+        fv = _iv(repo, f, max_stmts=30)   # a per-candidate helper method is part of the validator
         cands = []
         for c in fv.calls(["append"]):
             if unparse(c.func.value) == "errors":
@@ -199,14 +200,17 @@ def _clauses(ck, repo):
             for node, text in cands:
                 if use_text and fragment not in text and not (qual.endswith("_validate_enum_values_are_unique")):
                     continue
-                if not use_text and (id(node) in claimed or any(fr in text for q2, _, _, _, fr in CLAUSES if q2 == qual and fr != fragment)):
+                if not use_text and (id(node) in claimed or any(fr in text for _, _, _, _, fr in CLAUSES if fr != fragment)):
                     continue
-                got = set(fv.conditions(node))
+                import re as _re
+                got = {(_re.sub(r"\b_h\d+_", "", t_), o_) for t_, o_ in fv.conditions(node)}   # (names of an inlined helper carry a prefix)
                 if not all(tuple(x) in got for x in conds):
                     continue
                 if handler is not None:
                     h = fv.enclosing(node, (ast.ExceptHandler,))
-                    if h is None or handler not in handler_types(h):
+                    member = handler == "KeyError" and any(o == "F" and " in self." in t and " not in " not in t for t, o in got) or \
+                        handler == "KeyError" and any(o == "T" and " not in self." in t for t, o in got)
+                    if (h is None or handler not in handler_types(h)) and not member:
                         continue
                 hit = node
                 break
@@ -239,6 +243,10 @@ def _clauses(ck, repo):
                            ("_validate_input_type_composed_of_input_type", "_validate_type_is_an_input_types")):
         cv = FuncView(sc.methods[caller])
         cs = cv.calls(callee)
+        if not cs:
+            # through a per-candidate helper method of the schema class: the helper is called in the loops and calls the callee
+            cs = [c for c in cv.calls() if isinstance(c.func, ast.Attribute) and unparse(c.func.value) == "self" and c.func.attr in sc.methods
+                  and FuncView(sc.methods[c.func.attr]).calls(callee)]
         ck.ob(f"{caller} applies {callee} to every candidate", bool(cs) and all(cv.enclosing_loops(c) for c in cs), sc.methods[caller], cs[0] if cs else sc.methods[caller].node,
               construct=f"glue:{caller}:{callee}")
     # a validator judges *every* candidate only if it walks a complete registry: the tables every definition is entered into when
